@@ -289,15 +289,25 @@ func smallInput(r *rand.Rand) (string, []byte) {
 	}
 }
 
-// exactCodes returns a prefix of random data whose compressed form has exactly n
-// codes before the eof code (counting clear codes), by bisection on the length.
-func exactCodes(r *rand.Rand, n int) []byte {
-	data := make([]byte, n+2000)
-	r.Read(data)
+// dataCodes counts the codes other than clear/eof of the REFERENCE encoding of x
+// (Go's compress/lzw), so that steering never depends on the code under test.
+func dataCodes(x []byte) int {
+	n := 0
+	for _, c := range codesOf(stdCompress(x)) {
+		if c != 256 && c != 257 {
+			n++
+		}
+	}
+	return n
+}
+
+// exactData returns the shortest prefix of data whose encoding has n data codes
+// (the count grows by at most one per input byte, so it is hit exactly).
+func exactData(data []byte, n int) []byte {
 	lo, hi := 1, len(data)
 	for lo < hi {
 		mid := (lo + hi) / 2
-		if len(codesOf(common.Compress(data[:mid])))-1 < n {
+		if dataCodes(data[:mid]) < n {
 			lo = mid + 1
 		} else {
 			hi = mid
@@ -306,18 +316,101 @@ func exactCodes(r *rand.Rand, n int) []byte {
 	return data[:lo]
 }
 
+type named struct {
+	kind string
+	x    []byte
+}
+
+// edgeInputs: inputs whose LAST data code is exactly the one that makes hi reach
+// a width step (255, 767, 1791 data codes: eof must be written one bit wider) or
+// the table limit (3838: Close must send clear, then eof with 9 bits), and their
+// neighbours.  Generated on every run.
+func edgeInputs(r *rand.Rand) []named {
+	var out []named
+	rnd := func(n int) []byte { b := make([]byte, n); r.Read(b); return b }
+	alpha := func(n int) []byte {
+		b := make([]byte, n)
+		for i := range b {
+			b[i] = byte(r.Intn(16)) * 17
+		}
+		return b
+	}
+	for _, t := range []int{255, 767, 1791, 3838} {
+		for _, d := range []int{-1, 0, 1} {
+			out = append(out, named{fmt.Sprintf("edge-%d%+d", t, d), exactData(rnd(t+1500), t+d)})
+		}
+		out = append(out, named{fmt.Sprintf("edge-%d+0", t), exactData(rnd(t+1500), t)})
+		if t <= 1791 {
+			out = append(out, named{fmt.Sprintf("edge-%d+0-alpha", t), exactData(alpha(6*t+3000), t)})
+		}
+	}
+	// a dense 256-byte bloom cut to 255 codes when it has that many
+	return out
+}
+
+// resetRepeat: random data up to the byte at which the table is reset (3838 data
+// codes sent, the 3839th pending), followed by repetitions of the bytes around the
+// reset point, so that the (code, byte) pair that was pending at the reset occurs
+// again while the new table is still young.
+func resetRepeat(r *rand.Rand) []byte {
+	data := make([]byte, 6000)
+	r.Read(data)
+	if r.Intn(3) == 0 { // fewer distinct bytes: longer phrases before the reset
+		for i := range data {
+			data[i] &= 0x3f
+		}
+	}
+	p := exactData(data, 3839)
+	k := 8 + r.Intn(120)
+	if k > len(p) {
+		k = len(p)
+	}
+	tail := append([]byte{}, p[len(p)-k:]...)
+	x := append([]byte{}, p...)
+	for i := 0; i < 2+r.Intn(5); i++ {
+		x = append(x, tail...)
+	}
+	g := make([]byte, r.Intn(300))
+	r.Read(g)
+	return append(x, g...)
+}
+
+// denseLong: 10-32 KiB of dense data with re-use of recent windows: several table
+// resets, each followed by material seen just before it.
+func denseLong(r *rand.Rand, max int) []byte {
+	n := 10000 + r.Intn(max-10000)
+	x := make([]byte, 4000+r.Intn(1500))
+	r.Read(x)
+	for len(x) < n {
+		if r.Intn(3) == 0 {
+			g := make([]byte, 100+r.Intn(1500))
+			r.Read(g)
+			x = append(x, g...)
+		} else {
+			w := 16 + r.Intn(400)
+			back := w + r.Intn(600)
+			if back > len(x) {
+				back = len(x)
+			}
+			if w > back {
+				w = back
+			}
+			x = append(x, x[len(x)-back:len(x)-back+w]...)
+		}
+	}
+	return x[:n]
+}
+
 func largeInput(r *rand.Rand, i int) (string, []byte) {
 	switch i % 8 {
 	case 0: // enough distinct material to run out of codes: table reset(s)
 		b := make([]byte, 4500+r.Intn(3700))
 		r.Read(b)
 		return "large-random", b
-	case 1: // the reset happens exactly at / next to the end of the input (Close sends the clear code)
-		n := []int{3836, 3837, 3838, 3839, 3840}[r.Intn(5)]
-		return fmt.Sprintf("reset-edge-%d", n), exactCodes(r, n)
-	case 2:
-		n := []int{254, 255, 256, 766, 767, 768, 1790, 1791, 1792}[r.Intn(9)]
-		return "width-edge", exactCodes(r, n)
+	case 1: // the pair pending at a table reset occurs again right after it
+		return "reset-repeat", resetRepeat(r)
+	case 2: // several resets, 10-32 KiB
+		return "dense-long", denseLong(r, 32768)
 	case 3:
 		return "large-run", bytes.Repeat([]byte{byte(r.Intn(256))}, 4000+r.Intn(4192))
 	case 4:
@@ -495,6 +588,10 @@ func gen(c *hxlib.Ctx) {
 	if c.OracleOnly {
 		nLarge = 12
 	}
+	var edges []named
+	for k := 0; k < c.Scale; k++ {
+		edges = append(edges, edgeInputs(r)...)
+	}
 	li := 0
 	nSmall := c.N(470)
 	every := nSmall / (nLarge + 1)
@@ -509,9 +606,22 @@ func gen(c *hxlib.Ctx) {
 			li++
 			emitComp(c, kind, x)
 		}
+		if i%20 == 3 && len(edges) > 0 {
+			emitComp(c, edges[0].kind, edges[0].x)
+			edges = edges[1:]
+		}
 		if i%4 == 0 {
 			kind, b := malformed(r)
 			emitDec(c, kind, b)
+		}
+	}
+	for _, e := range edges {
+		emitComp(c, e.kind, e.x)
+	}
+	if c.OracleOnly { // search mode: more of the expensive shapes, no Coq output needed
+		for i := 0; i < 12; i++ {
+			emitComp(c, "reset-repeat", resetRepeat(r))
+			emitComp(c, "dense-long", denseLong(r, 65536))
 		}
 	}
 	for i := 0; i < c.N(3); i++ {
@@ -557,7 +667,7 @@ func main() {
 	hxlib.Main(hxlib.Spec{
 		ID: "C25",
 		Rule: "inputs: what LogsBloom.CompressedBytes compresses (real blooms built with AddLog, big.Int.Bytes of sparse 2048-bit numbers), sparse 256-byte arrays, tiny strings, random bytes, single runs (every code is the one being defined), periodic strings, runs of varying length, small alphabets, byte extremes, lengths at the 9->10 and 10->11 bit steps; " +
-			"every ~20th case is 4-8 KiB (random, runs, alphabets, sparse, periodic) or cut by bisection so that the stream has exactly 3836..3840 codes (table reset at / next to Close) or 254..256 / 766..768 / 1790..1792 codes (width steps); " +
+			"every ~20th case is 4-8 KiB (random, runs, alphabets, sparse, periodic) random data up to a table reset followed by repetitions of the bytes around the reset point, or 10-32 KiB dense data with re-used windows (several resets); on every run inputs cut by bisection (steered by the reference encoder) to exactly 255/767/1791/3838 data codes and their neighbours (the last code reaches a width step / the table limit, so Close must widen / clear before eof); " +
 			"observed: Compress(x) bytes and Decompress of it, compared byte for byte with the model; direct oracle: round trip, and bit-for-bit equality with Go's compress/lzw stream minus its leading 9-bit clear code, first code = literal x[0], both reference directions decode; " +
 			"malformed stream for Decompress (truncated, bit flips, trailing bytes, random bytes, reference format with clear code, hand-built code sequences with clear/eof/undefined/being-defined codes, no eof, saturated reader with 4095 codes and no clear): output bytes compared with the model, no panic; " +
 			"non-trivial = non-empty input whose stream uses at least one dictionary code (compress cases) / at least one byte decoded (decompress cases); distinct = distinct case term",
